@@ -555,21 +555,213 @@ Proof.
   intros Hok Hr. unfold binary_store.
   assert (Hv : b64_validate (b64_encode d) = true) by (apply b64_validate_encode; exact Hok).
   rewrite b64_newlines_id.
-  - rewrite Hv, (b64_decode_encode d Hok), Hr. reflexivity.
+  - rewrite Hv, (b64_decode_encode d Hok), Hr. destruct (b64_is_canonical (b64_encode d)); reflexivity.
   - apply b64_shape_no_nl. unfold b64_validate in Hv. apply andb_true_iff in Hv. apply Hv.
 Qed.
 
-(* storing the canonical string (the text kept by the first store) gives the same value *)
-Theorem binary_canon_idempotent parts s v :
-  binary_store parts s = Ok v -> binary_store parts (binary_canon v) = Ok v.
+(* ---------- the other direction: a validated text with zero unused bits is the RFC 4648 text of its octets ---------- *)
+Definition b64_alpha_check (c : N) : bool :=
+  implb (is_b64 c) ((b64_dec c <? 64) && (b64_enc (b64_dec c) =? c) && negb (c =? 61)).
+Lemma b64_alpha_all : N_all_below 123 b64_alpha_check = true.
+Proof. vm_compute. reflexivity. Qed.
+
+Lemma b64_alpha c : is_b64 c = true -> b64_dec c < 64 /\ b64_enc (b64_dec c) = c /\ c <> 61.
+Proof.
+  intro H. assert (Hlt : c < 123) by (unfold is_b64 in H; lia).
+  pose proof (N_all_below_spec 123 b64_alpha_check b64_alpha_all c Hlt) as E. unfold b64_alpha_check in E.
+  rewrite H in E. cbn [implb] in E. apply andb_true_iff in E. destruct E as [E E3]. apply andb_true_iff in E.
+  destruct E as [E1 E2]. repeat split; [apply N.ltb_lt; exact E1|apply N.eqb_eq; exact E2|].
+  apply N.eqb_neq. apply negb_true_iff. exact E3.
+Qed.
+
+Lemma b64_dec_lt c : b64_dec c < 64.
+Proof.
+  unfold b64_dec.
+  repeat match goal with |- context[if ?b then _ else _] => destruct b eqn:? end; lia.
+Qed.
+
+(* what binary_base64_validate accepts: groups of four alphabet characters, the last one possibly padded *)
+Inductive b64_wf : bytes -> Prop :=
+| wf_nil : b64_wf []
+| wf_pad2 a b : is_b64 a = true -> is_b64 b = true -> b64_wf [a; b; 61; 61]
+| wf_pad1 a b c : is_b64 a = true -> is_b64 b = true -> is_b64 c = true -> b64_wf [a; b; c; 61]
+| wf_group a b c d r :
+    is_b64 a = true -> is_b64 b = true -> is_b64 c = true -> is_b64 d = true -> b64_wf r -> b64_wf (a :: b :: c :: d :: r).
+
+Lemma list_ind4 (P : bytes -> Prop) :
+  P [] -> (forall a, P [a]) -> (forall a b, P [a; b]) -> (forall a b c, P [a; b; c]) ->
+  (forall a b c d r, P r -> P (a :: b :: c :: d :: r)) -> forall l, P l.
+Proof.
+  intros H0 H1 H2 H3 H4. fix IH 1. intros [|a [|b [|c [|d r]]]]; [exact H0|apply H1|apply H2|apply H3|]. apply H4. apply IH.
+Qed.
+
+Lemma b64_validate_wf t : b64_validate t = true -> b64_wf t.
+Proof.
+  unfold b64_validate. induction t as [|a|a b|a b c|a b c d r IH] using list_ind4; intro H;
+    apply andb_true_iff in H; destruct H as [Hs Hl]; try (cbn in Hl; discriminate).
+  - constructor.
+  - cbn [skip_b64] in Hs.
+    destruct (is_b64 a) eqn:Ha; [|cbn in Hs; destruct r; discriminate].
+    destruct (is_b64 b) eqn:Hb; [|cbn in Hs; discriminate].
+    destruct (is_b64 c) eqn:Hc.
+    + destruct (is_b64 d) eqn:Hd.
+      * apply wf_group; try assumption. apply IH. apply andb_true_iff. split; [exact Hs|].
+        cbn [length] in Hl. apply Nat.eqb_eq in Hl. apply Nat.eqb_eq.
+        replace (S (S (S (S (length r))))) with (length r + 1 * 4)%nat in Hl by lia.
+        rewrite Nat.mod_add in Hl by lia. exact Hl.
+      * unfold b64_shape in Hs. destruct r as [|x [|y r]]; [| |discriminate].
+        -- apply N.eqb_eq in Hs. subst d. apply wf_pad1; assumption.
+        -- cbn in Hl. discriminate.
+    + unfold b64_shape in Hs. destruct r as [|x r]; [|discriminate].
+      apply andb_true_iff in Hs. destruct Hs as [E1 E2]. apply N.eqb_eq in E1, E2. subst c d. apply wf_pad2; assumption.
+Qed.
+
+(* group-wise decoder *)
+Fixpoint b64_dec_struct (t : bytes) : bytes :=
+  match t with
+  | a :: b :: c :: d :: r =>
+      if d =? 61 then (if c =? 61 then b64_tail 1 [a; b; c; d] else b64_tail 2 [a; b; c; d])
+      else b64_group a b c d ++ b64_dec_struct r
+  | _ => []
+  end.
+
+Lemma b64_wf_length t : b64_wf t -> t = [] \/ (4 <= length t)%nat.
+Proof. intro H. destruct H; cbn [length]; auto; right; lia. Qed.
+
+Lemma b64_is_canonical_cons4 a b c d r :
+  (4 <= length r)%nat -> b64_is_canonical (a :: b :: c :: d :: r) = b64_is_canonical r.
+Proof.
+  intro Hl. unfold b64_is_canonical. cbn [length].
+  assert (E1 : Nat.ltb (S (S (S (S (length r))))) 4 = false) by (apply Nat.ltb_ge; lia).
+  assert (E2 : Nat.ltb (length r) 4 = false) by (apply Nat.ltb_ge; lia).
+  rewrite E1, E2. cbn [orb].
+  replace (S (S (S (S (length r)))) - 1)%nat with (S (S (S (S (length r - 1))))) by lia.
+  replace (S (S (S (S (length r)))) - 2)%nat with (S (S (S (S (length r - 2))))) by lia.
+  replace (S (S (S (S (length r)))) - 3)%nat with (S (S (S (S (length r - 3))))) by lia.
+  cbn [nth]. reflexivity.
+Qed.
+
+Ltac Zify.zify_post_hook ::= Z.to_euclidean_division_equations.
+
+Lemma land_15 x : N.land x 15 = x mod 16.
+Proof. change 15 with (N.ones 4). rewrite N.land_ones. reflexivity. Qed.
+Lemma land_3 x : N.land x 3 = x mod 4.
+Proof. change 3 with (N.ones 2). rewrite N.land_ones. reflexivity. Qed.
+
+Lemma b64_enc_group a b c d :
+  is_b64 a = true -> is_b64 b = true -> is_b64 c = true -> is_b64 d = true ->
+  forall rest, b64_encode (b64_group a b c d ++ rest) = a :: b :: c :: d :: b64_encode rest.
+Proof.
+  intros Ha Hb Hc Hd rest.
+  destruct (b64_alpha a Ha) as [La [Ea _]]. destruct (b64_alpha b Hb) as [Lb [Eb _]].
+  destruct (b64_alpha c Hc) as [Lc [Ec _]]. destruct (b64_alpha d Hd) as [Ld [Ed _]].
+  unfold b64_group. cbn [app b64_encode].
+  set (n := b64_dec a * 262144 + b64_dec b * 4096 + b64_dec c * 64 + b64_dec d).
+  assert (H1 : n / 65536 / 4 = b64_dec a) by (unfold n; lia).
+  assert (H2 : (n / 65536) mod 4 * 16 + (n / 256) mod 256 / 16 = b64_dec b) by (unfold n; lia).
+  assert (H3 : (n / 256) mod 256 mod 16 * 4 + n mod 256 / 64 = b64_dec c) by (unfold n; lia).
+  assert (H4 : n mod 256 mod 64 = b64_dec d) by (unfold n; lia).
+  rewrite H1, H2, H3, H4, Ea, Eb, Ec, Ed. reflexivity.
+Qed.
+
+Lemma b64_enc_tail1 a b :
+  is_b64 a = true -> is_b64 b = true -> b64_dec b mod 16 = 0 ->
+  b64_encode (b64_tail 1 [a; b; 61; 61]) = [a; b; 61; 61].
+Proof.
+  intros Ha Hb Hz. destruct (b64_alpha a Ha) as [La [Ea _]]. destruct (b64_alpha b Hb) as [Lb [Eb _]].
+  unfold b64_tail. cbn [nth b64_encode].
+  set (x := (b64_dec a * 262144 + b64_dec b * 4096) / 65536 mod 256).
+  assert (H1 : x / 4 = b64_dec a) by (unfold x; lia).
+  assert (H2 : x mod 4 * 16 = b64_dec b) by (unfold x; lia).
+  rewrite H1, H2, Ea, Eb. reflexivity.
+Qed.
+
+Lemma b64_enc_tail2 a b c :
+  is_b64 a = true -> is_b64 b = true -> is_b64 c = true -> b64_dec c mod 4 = 0 ->
+  b64_encode (b64_tail 2 [a; b; c; 61]) = [a; b; c; 61].
+Proof.
+  intros Ha Hb Hc Hz. destruct (b64_alpha a Ha) as [La [Ea _]]. destruct (b64_alpha b Hb) as [Lb [Eb _]].
+  destruct (b64_alpha c Hc) as [Lc [Ec _]].
+  unfold b64_tail. cbn [nth b64_encode].
+  set (n := b64_dec a * 262144 + b64_dec b * 4096 + b64_dec c * 64).
+  assert (H1 : n / 65536 mod 256 / 4 = b64_dec a) by (unfold n; lia).
+  assert (H2 : n / 65536 mod 256 mod 4 * 16 + n / 256 mod 256 / 16 = b64_dec b) by (unfold n; lia).
+  assert (H3 : n / 256 mod 256 mod 16 * 4 = b64_dec c) by (unfold n; lia).
+  rewrite H1, H2, H3, Ea, Eb, Ec. reflexivity.
+Qed.
+
+Lemma b64_dec_struct_ok t : bytes_ok (b64_dec_struct t) = true.
+Proof.
+  induction t as [|a|a b|a b c|a b c d r IH] using list_ind4; try reflexivity.
+  pose proof (b64_dec_lt a). pose proof (b64_dec_lt b). pose proof (b64_dec_lt c). pose proof (b64_dec_lt d).
+  cbn [b64_dec_struct]. destruct (d =? 61).
+  - destruct (c =? 61); unfold b64_tail, bytes_ok, byte_ok; cbn [nth forallb]; rewrite ?andb_true_iff, ?N.ltb_lt; repeat split; lia.
+  - unfold bytes_ok in *. rewrite forallb_app, IH. unfold b64_group, byte_ok. cbn [forallb].
+    rewrite ?andb_true_iff, ?N.ltb_lt. repeat split; lia.
+Qed.
+
+Ltac Zify.zify_post_hook ::= idtac.
+
+Lemma b64_encode_dec_struct t : b64_wf t -> b64_is_canonical t = true -> b64_encode (b64_dec_struct t) = t.
+Proof.
+  induction 1 as [|a b Ha Hb|a b c Ha Hb Hc|a b c d r Ha Hb Hc Hd Hr IH]; intro Hcan.
+  - reflexivity.
+  - unfold b64_is_canonical in Hcan. cbn in Hcan. rewrite land_15 in Hcan. apply N.eqb_eq in Hcan.
+    cbn [b64_dec_struct]. rewrite N.eqb_refl. apply b64_enc_tail1; assumption.
+  - destruct (b64_alpha c Hc) as [_ [_ Hc61]]. apply N.eqb_neq in Hc61.
+    unfold b64_is_canonical in Hcan. cbn [length nth Nat.ltb Nat.leb Nat.sub orb negb] in Hcan.
+    rewrite N.eqb_refl in Hcan. cbn [negb] in Hcan. rewrite Hc61 in Hcan. rewrite land_3 in Hcan. apply N.eqb_eq in Hcan.
+    cbn [b64_dec_struct]. rewrite N.eqb_refl, Hc61. apply b64_enc_tail2; assumption.
+  - destruct (b64_alpha d Hd) as [_ [_ Hd61]]. apply N.eqb_neq in Hd61.
+    cbn [b64_dec_struct]. rewrite Hd61. rewrite b64_enc_group by assumption. f_equal. f_equal. f_equal. f_equal.
+    destruct (b64_wf_length r Hr) as [->|Hl]; [reflexivity|].
+    apply IH. rewrite <- (b64_is_canonical_cons4 a b c d r Hl). exact Hcan.
+Qed.
+
+Lemma b64_canonical_text t :
+  b64_validate t = true -> b64_is_canonical t = true -> b64_encode (b64_decode t) = t.
+Proof.
+  intros Hv Hc. pose proof (b64_encode_dec_struct t (b64_validate_wf t Hv) Hc) as E.
+  rewrite <- E at 1. rewrite (b64_decode_encode _ (b64_dec_struct_ok t)). exact E.
+Qed.
+
+(* the canonical string of every stored value is the RFC 4648 text of its octets (since /repo commit c0ee3aa) *)
+Theorem binary_canon_is_rfc4648 parts s v :
+  binary_store parts s = Ok v -> binary_canon v = b64_encode (fst v).
 Proof.
   unfold binary_store, binary_canon. destruct (b64_newlines s) as [t|] eqn:Hn; [|discriminate].
   destruct (b64_validate t) eqn:Hv; [|discriminate].
   destruct (validate_range parts (Z.of_nat (length (b64_decode t)))) eqn:Hr; [|discriminate].
-  intro H. inversion H; subst v. cbn [snd].
-  rewrite b64_newlines_id.
-  - rewrite Hv, Hr. reflexivity.
-  - apply b64_shape_no_nl. unfold b64_validate in Hv. apply andb_true_iff in Hv. apply Hv.
+  intro H. inversion H; subst v. cbn [fst snd].
+  destruct (b64_is_canonical t) eqn:Hc; [|reflexivity]. symmetry. apply b64_canonical_text; assumption.
+Qed.
+
+Ltac Zify.zify_post_hook ::= Z.to_euclidean_division_equations.
+Lemma b64_groups_ok k : forall s, bytes_ok (fst (b64_groups k s)) = true.
+Proof.
+  induction k as [|k IH]; intro s; [reflexivity|]. cbn [b64_groups].
+  destruct s as [|a [|b [|c [|d r]]]]; try reflexivity.
+  specialize (IH r). destruct (b64_groups k r) as [o rest]. cbn [fst] in *.
+  pose proof (b64_dec_lt a). pose proof (b64_dec_lt b). pose proof (b64_dec_lt c). pose proof (b64_dec_lt d).
+  unfold bytes_ok in *. rewrite forallb_app, IH. unfold b64_group, byte_ok. cbn [forallb].
+  rewrite ?andb_true_iff, ?N.ltb_lt. repeat split; lia.
+Qed.
+
+Lemma b64_decode_ok s : bytes_ok (b64_decode s) = true.
+Proof.
+  unfold b64_decode.
+  pose proof (b64_groups_ok (Nat.div (length s + 3) 4 - (if Nat.eqb (b64_pad s) 0 then 0 else 1)) s) as Hg.
+  destruct (b64_groups _ s) as [o rest]. cbn [fst] in Hg. unfold bytes_ok in *. rewrite forallb_app, Hg. cbn [andb].
+  destruct (b64_pad s) as [|[|p]]; unfold b64_tail, byte_ok; cbn [forallb]; rewrite ?andb_true_iff, ?N.ltb_lt; repeat split; lia.
+Qed.
+Ltac Zify.zify_post_hook ::= idtac.
+
+Lemma binary_store_ok parts s v : binary_store parts s = Ok v -> bytes_ok (fst v) = true.
+Proof.
+  unfold binary_store. destruct (b64_newlines s) as [t|]; [|discriminate].
+  destruct (b64_validate t); [|discriminate].
+  destruct (validate_range parts (Z.of_nat (length (b64_decode t)))); [|discriminate].
+  intro H. inversion H; subst v. cbn [fst]. apply b64_decode_ok.
 Qed.
 
 (* the length restriction is checked on the number of decoded octets *)
@@ -582,26 +774,33 @@ Proof.
   intro H. inversion H; subst v. exact Hr.
 Qed.
 
-(* among RFC 4648 texts equality of the octets is equality of the texts *)
-Theorem binary_eq_iff_canon_rfc d1 d2 :
-  bytes_ok d1 = true -> bytes_ok d2 = true ->
-  (binary_compare (d1, b64_encode d1) (d2, b64_encode d2) = true <-> b64_encode d1 = b64_encode d2).
+(* storing the canonical string gives the same value *)
+Theorem binary_canon_idempotent parts s v :
+  binary_store parts s = Ok v -> binary_store parts (binary_canon v) = Ok v.
 Proof.
-  intros H1 H2. unfold binary_compare. cbn [fst]. rewrite beq_bytes_eq. split; [intros ->; reflexivity|].
-  intro H. rewrite <- (b64_decode_encode d1 H1), <- (b64_decode_encode d2 H2), H. reflexivity.
+  intro H. rewrite (binary_canon_is_rfc4648 parts s v H).
+  rewrite (binary_encode_store parts (fst v) (binary_store_ok parts s v H) (binary_length_counts_octets parts s v H)).
+  rewrite <- (binary_canon_is_rfc4648 parts s v H). unfold binary_canon. destruct v; reflexivity.
 Qed.
 
-(* ... but not among all accepted texts: YQ== and YR== (non-zero unused bits) store the same octet and keep
-   different canonical strings; the canonical string of YR== is not the RFC 4648 text of its octets *)
-Theorem binary_eq_iff_canon_refuted :
-  exists a b, binary_store [] [89; 81; 61; 61] = Ok a /\ binary_store [] [89; 82; 61; 61] = Ok b /\
-              binary_compare a b = true /\ binary_canon a <> binary_canon b /\
-              binary_canon b <> b64_encode (fst b).
+(* two stored values are equal exactly when their canonical strings are equal (since /repo commit c0ee3aa) *)
+Theorem binary_eq_iff_canon parts s1 s2 a b :
+  binary_store parts s1 = Ok a -> binary_store parts s2 = Ok b ->
+  (binary_compare a b = true <-> binary_canon a = binary_canon b).
 Proof.
-  exists ([97], [89; 81; 61; 61]), ([97], [89; 82; 61; 61]).
-  split; [vm_compute; reflexivity|]. split; [vm_compute; reflexivity|]. split; [vm_compute; reflexivity|].
-  split; vm_compute; discriminate.
+  intros Ha Hb. rewrite (binary_canon_is_rfc4648 _ _ _ Ha), (binary_canon_is_rfc4648 _ _ _ Hb).
+  unfold binary_compare. rewrite beq_bytes_eq. split; [intros ->; reflexivity|].
+  intro H. rewrite <- (b64_decode_encode _ (binary_store_ok _ _ _ Ha)), <- (b64_decode_encode _ (binary_store_ok _ _ _ Hb)), H.
+  reflexivity.
 Qed.
+
+(* regression of the former defect binary-pad-bits: YR== (unused bits not zero) is accepted, stores the octet 0x61 and
+   has the canonical string YQ==, like YQ== itself *)
+Theorem binary_pad_bits_regression :
+  binary_store [] [89; 82; 61; 61] = Ok ([97], [89; 81; 61; 61]) /\
+  binary_store [] [89; 81; 61; 61] = Ok ([97], [89; 81; 61; 61]) /\
+  binary_store [] [89; 87; 74; 61] = Ok ([97; 98], [89; 87; 73; 61]).
+Proof. repeat split; vm_compute; reflexivity. Qed.
 
 Theorem binary_sort_total_order :
   (forall a, binary_sort a a = Eq) /\
@@ -662,20 +861,19 @@ Proof.
   all: assert (Hc0 : c <> 0) by (intros ->; vm_compute in B1; discriminate).
   - (* two bytes *)
     destruct (Nat.ltb 1 (length (c :: r))) eqn:Hl; cbn [andb] in H; [|discriminate].
-    match type of H with (if ?X then _ else _) = _ => destruct X end; [discriminate|].
+    repeat (match type of H with (if ?X then _ else _) = _ => destruct X end; [discriminate|]).
     inversion H; subst u. apply Nat.ltb_lt in Hl.
     match goal with T : Nat.eqb (utf8_tab _) 2 = true |- _ => apply Nat.eqb_eq in T; rewrite T end.
     repeat split; try lia; assumption.
   - (* three bytes *)
     destruct (Nat.ltb 2 (length (c :: r))) eqn:Hl; cbn [andb] in H; [|discriminate].
-    match type of H with (if ?X then _ else _) = _ => destruct X end; [discriminate|].
-    match type of H with (if ?X then _ else _) = _ => destruct X end; [discriminate|].
+    repeat (match type of H with (if ?X then _ else _) = _ => destruct X end; [discriminate|]).
     inversion H; subst u. apply Nat.ltb_lt in Hl.
     match goal with T : Nat.eqb (utf8_tab _) 3 = true |- _ => apply Nat.eqb_eq in T; rewrite T end.
     repeat split; try lia; assumption.
   - (* four bytes *)
     destruct (Nat.ltb 3 (length (c :: r))) eqn:Hl; cbn [andb] in H; [|discriminate].
-    match type of H with (if ?X then _ else _) = _ => destruct X end; [discriminate|].
+    repeat (match type of H with (if ?X then _ else _) = _ => destruct X end; [discriminate|]).
     inversion H; subst u. apply Nat.ltb_lt in Hl.
     match goal with T : Nat.eqb (utf8_tab _) 4 = true |- _ => apply Nat.eqb_eq in T; rewrite T end.
     repeat split; try lia; assumption.
